@@ -26,6 +26,11 @@ CHECKS = {
         text='Exploration with CPython\'s parser as reader of the displayed text. Every depth-2 expression tree (form x hole x inner form), every depth-3 operator chain over all operand positions, every literal leaf kind, re.compile calls and random deeper trees are rendered by the real colouriser under unlimited, inline and small linelen/maxlines settings; complete outputs must read back as the same expression (wrap markers removed), incomplete ones must end in the ellipsis marker. A failing expression is attributed to a known mechanism only if rewriting that syntactic pattern away makes it pass and putting it back makes it fail; anything else is a new violation.',
         note='Trusts ast.parse/ast.unparse of CPython 3.12 and the normaliser vf/ref/exprnorm.py (quotes, number formatting, set([..]), regex re-spelling compared by parse tree). Five defects are listed as known findings by mechanism.',
         ref='4/C15'),
+    'C17': dict(
+        technique='round trip with two independent readers (pydoctor SphinxInventory, Sphinx InventoryFile) against an independent page-layout reference, plus structured byte/line fuzzing of SphinxInventory.update with metamorphic "other lines unaffected / dropped lines reported" oracles',
+        text='Exploration. Written inventories of a fixture (non-ASCII, nested, hidden, duplicate and root-named objects), generated projects and real packages are loaded by both readers and compared entry by entry with the visible documented objects and an independent statement of the URL layout. 160k (quick) / 2M (thorough) structured fuzz inputs and 32k / 400k single-line corruptions of valid inventories are fed to the real update(): it must not raise, a previously loaded inventory and the other lines must resolve unchanged, and a line that disappears must have been reported.',
+        note='Sphinx 9.1 is the second reader; zlib/UTF-8 are the interpreter\'s; a corrupted line that still parses under another name or a non-py domain counts as usable/ignorable as the reader defines it.',
+        ref='4/C17'),
     'C19': dict(
         technique='trace monitor: every visit/depart dispatched through visitor._BaseVisitor is recorded (wrapped from the harness) and checked offline by a stack automaton and against an executable reading of the documented contract; exhaustive over trees<=4 x prunings x extension timings; builder scope-stack invariant hooked after processModuleAST',
         text='Exploration. Event traces of the real Visitor.walk/walkabout are recorded at the dispatch boundary and compared, per visitor, with the trace the documented contract requires, and run through a balance/nesting/order automaton. The bounded space of the property (all trees of <=4 nodes x 5^n pruning assignments x 16 timing subsets, both traversals) is completed on every run; the real ASTBuilder with its real extensions plus four recording extensions is traced on real packages and generated modules, and its scope stack is checked after every module.',
